@@ -72,6 +72,13 @@ def rbf_case(p):
         j = int(np.argmax(np.max(np.abs(Xt - want), axis=0)))
         return dict(what='RbfLiftingFn feature differs from R(shape*||[x;u]-c||+offset) of the named radial function',
                     column=j, got=Xt[:3, j].tolist(), want=want[:3, j].tolist())
+    # whole-number data given as an integer-typed array: same features as the same numbers given as floats
+    Xw = np.round(3 * X)
+    Xwd = np.hstack((Xd[:, :1], Xw)) if ep else Xw
+    Ti = lf.transform(Xwd.astype(np.int64)); Tf = lf.transform(Xwd)
+    if Ti.shape != Tf.shape or not np.allclose(Ti, Tf, rtol=1e-12, atol=1e-14, equal_nan=True):
+        return dict(what='RBF features depend on the dtype of the data (integer-typed rows give other features than the same '
+                         'numbers as floats)')
     nso = lf.n_states_out_
     if (nu == 0 and nso != ns + k) or (nu > 0 and (nso != ns or lf.n_inputs_out_ != nu + k)):
         return dict(what='RBF block not appended where declared', n_states_out=int(nso))
